@@ -303,3 +303,44 @@ pub unsafe extern "C" fn syscall(n: c_long, a1: usize, a2: usize, a3: usize, a4:
     }
     raw_syscall6(n, a1, a2, a3, a4, a5, a6)
 }
+
+// ---------------------------------------------------------------- yields and sleeps
+//
+// `std::thread::yield_now()` and `std::thread::sleep()` reach libc's `sched_yield` and
+// `nanosleep`/`clock_nanosleep`. On a simulated thread they are scheduling points (a sleep
+// advances only the simulated clock); elsewhere they behave as usual.
+
+#[no_mangle]
+pub unsafe extern "C" fn sched_yield() -> c_int {
+    if crate::sched::current_tid() != usize::MAX {
+        crate::sched::point(crate::sched::PointKind::Yield, 0);
+        return 0;
+    }
+    raw_syscall6(libc::SYS_sched_yield, 0, 0, 0, 0, 0, 0) as c_int
+}
+
+#[no_mangle]
+pub unsafe extern "C" fn nanosleep(req: *const libc::timespec, rem: *mut libc::timespec) -> c_int {
+    if crate::sched::current_tid() != usize::MAX && !req.is_null() {
+        let ns = ((*req).tv_sec as u64).saturating_mul(1_000_000_000).saturating_add((*req).tv_nsec as u64);
+        crate::sched::point(crate::sched::PointKind::Yield, ns / 1000 + 1);
+        return 0;
+    }
+    raw_syscall6(libc::SYS_nanosleep, req as usize, rem as usize, 0, 0, 0, 0) as c_int
+}
+
+#[no_mangle]
+pub unsafe extern "C" fn clock_nanosleep(clock: libc::clockid_t, flags: c_int, req: *const libc::timespec, rem: *mut libc::timespec) -> c_int {
+    if crate::sched::current_tid() != usize::MAX && !req.is_null() && flags == 0 {
+        let ns = ((*req).tv_sec as u64).saturating_mul(1_000_000_000).saturating_add((*req).tv_nsec as u64);
+        crate::sched::point(crate::sched::PointKind::Yield, ns / 1000 + 1);
+        return 0;
+    }
+    // clock_nanosleep returns the error number directly
+    let r = raw_syscall6(libc::SYS_clock_nanosleep, clock as usize, flags as usize, req as usize, rem as usize, 0, 0);
+    if r < 0 {
+        *libc::__errno_location()
+    } else {
+        0
+    }
+}
